@@ -417,6 +417,19 @@ func (e *SpecEnv) trCall(x *ast.CallExpr) Term {
 			return Term{S: sel(fx.H(e.cur, al), sterm), Sort: "Bool"}
 		}
 		return Term{S: and(not(sel(fx.H(e.old, al), sterm)), sel(fx.H(e.cur, al), sterm)), Sort: "Bool"}
+	case "sliceskept":
+		// sliceskept([]T): every backing array that existed in the old state is unchanged
+		need(1)
+		_, t := fx.typeFromString(exprString(args[0]), e.pkgOrDefault())
+		et := sliceElemType(t)
+		if et == nil {
+			e.fail("sliceskept: not a slice type")
+		}
+		comp := fx.reg.sliceComp(et)
+		fx.nq++
+		r := fmt.Sprintf("r!q%d", fx.nq)
+		return Term{S: fmt.Sprintf("(forall ((%s SRef)) (! (=> (select %s %s) (= (select %s %s) (select %s %s))) :pattern ((select %s %s))))",
+			r, fx.H(e.old, "AL_SRef"), r, fx.H(e.cur, comp), r, fx.H(e.old, comp), r, fx.H(e.cur, comp), r), Sort: "Bool"}
 	case "len":
 		need(1)
 		v := e.tr(args[0])
